@@ -548,6 +548,16 @@ func c07(c *Ctx) {
 		var why string
 		for _, g := range cands {
 			un := an.Guarded(fn, []an.Edge{g.pass}, effects)
+			// "abandoned with an error": the differ edge does not lead back to the comparison (a loop that waits
+			// for a better reply is neither an abort nor an error)
+			// (the fingerprint row is a search through the offered list: its differ edge goes on to the next entry)
+			if len(un) == 0 && g.helper == nil && len(g.pass.From.Succs) == 2 && row.name != "resPQ.fingerprint" {
+				differ := g.pass.From.Succs[1-g.pass.Succ]
+				if differ != g.pass.From && reachesBlock(differ, g.pass.From, map[*ssa.BasicBlock]bool{}) {
+					why = sprintf("guard at %s: the differ edge b%d→b%d leads back to the comparison - an inconsistent reply is waited out (another reply is read and compared again) instead of ending the exchange with an error", c.pos(g.pos), g.pass.From.Index, differ.Index)
+					continue
+				}
+			}
 			if len(un) == 0 {
 				ok = true
 				r.Hold("R07.G", key, c.pos(g.pos), sprintf("agree edge b%d→b%d dominates %d effects%s", g.pass.From.Index, g.pass.To().Index, len(effects), g.via))
